@@ -175,6 +175,14 @@ class Run:
         return self
 
 
+def _fingerprint(s):
+    '''What the clients saw and where the index ended, for the determinism self-test.'''
+    out = [s.db.state.height, bytes(s.db.state.tip), list(getattr(s, 'calls_log', ()))]
+    for name, c in sorted(getattr(s, 'x_clients', {}).items()):
+        out.append((name, [repr(sorted(m.items())) for m in c.messages]))
+    return out
+
+
 def explore(make, script_of, bound, judge, res, case, only=None, max_execs=None, point_hook=None,
             closing_ticks=8, shard=None):
     '''make() -> fresh System after set-up; script_of(system) -> script; judge(run) -> list of
@@ -182,6 +190,21 @@ def explore(make, script_of, bound, judge, res, case, only=None, max_execs=None,
     only=<choices> re-executes exactly that vector (replay).'''
     stack = [(list(only) if only is not None else [], 0)]
     execs = 0
+    if only is None and (not shard or shard[0] == 0):
+        # determinism self-test: the deviation-free execution twice, identical menus and trace
+        seen = []
+        for _ in range(2):
+            s = make()
+            try:
+                run = Run(s, script_of(s), closing_ticks=closing_ticks)
+                run.run([])
+                seen.append((run.menus, run.trace, _fingerprint(s)))
+            finally:
+                s.close()
+        if seen[0] != seen[1]:
+            raise Broken('non-deterministic execution: the same schedule gave different menus, '
+                         'traces or observations')
+        res.count('determinism_self_tests')
     while stack:
         prefix, cost = stack.pop()
         s = make()
